@@ -446,6 +446,46 @@ func ReadDir(name string) ([]DirEntry, error) {
 	return out, nil
 }
 
+// Chmod, Chtimes, Chown: permissions and times are not modelled; the calls succeed on
+// existing paths.
+func Chmod(name string, mode FileMode) error {
+	if err := fail("chmod", name); err != nil {
+		return perr("chmod", name, err)
+	}
+	if Lookup(name) == nil {
+		return perr("chmod", name, ErrNotExist)
+	}
+	return nil
+}
+
+func Chtimes(name string, atime, mtime time.Time) error {
+	n := Lookup(name)
+	if n == nil {
+		return perr("chtimes", name, ErrNotExist)
+	}
+	n.MTime = mtime
+	return nil
+}
+
+func (f *File) Chmod(mode FileMode) error { return nil }
+
+// Link creates newname as another name of oldname's file (fails if newname exists).
+func Link(oldname, newname string) error {
+	if err := fail("link", newname); err != nil {
+		return perr("link", newname, err)
+	}
+	n := Lookup(oldname)
+	if n == nil {
+		return perr("link", oldname, ErrNotExist)
+	}
+	if Lookup(newname) != nil {
+		return perr("link", newname, ErrExist)
+	}
+	Nodes = append(Nodes, &Node{Name: newname, Data: n.Data, MTime: n.MTime})
+	event("create", newname, nil, 0)
+	return nil
+}
+
 func IsNotExist(err error) bool   { return errors.Is(err, ErrNotExist) }
 func IsExist(err error) bool      { return errors.Is(err, ErrExist) }
 func IsPermission(err error) bool { return errors.Is(err, ErrPermission) }
